@@ -262,7 +262,7 @@ fn exh_len(tier: Tier) -> u32 {
 const EXH_BLOCK: u64 = 4000;
 const RAND_BLOCK: u64 = 6000;
 fn rand_cases(tier: Tier) -> u64 {
-    tier.pick(100_000, 2_000_000)
+    tier.pick(400_000, 2_000_000)
 }
 
 impl Property for C09P {
